@@ -899,7 +899,13 @@ func (r *runner) input(in []byte, ts []*target, deep, alloc bool) {
 
 // limitMemory keeps the worker's heap modest even when the garbage collector is
 // starved of CPU (soft limit, only changes GC pacing).
-func limitMemory() { debug.SetMemoryLimit(768 << 20) }
+func limitMemory() {
+	debug.SetMemoryLimit(768 << 20)
+	// last resort against a decoder that allocates fabricated sizes: far above anything a
+	// healthy run maps (observed < 6 GB of address space), far below the machine
+	lim := syscall.Rlimit{Cur: 24 << 30, Max: 24 << 30}
+	syscall.Setrlimit(syscall.RLIMIT_AS, &lim)
+}
 
 // allocTainted is set as soon as a decode allocated in proportion to a declared
 // size (or panicked on one).  From then on inputs declaring >= 2^32 bytes are not
@@ -936,13 +942,58 @@ func (r *runner) sentinel() {
 	}
 }
 
+// readerTainted is set as soon as the reader dimension has produced any finding.  From
+// then on inputs with a multi-byte length header are no longer decoded through streams
+// without an exact input limit: a decoder that fabricates values from partial reads also
+// fabricates sizes, and an unlimited Stream would try to allocate them (terabytes) in
+// every worker.  Every worker runs the same sentinel first, so all take the same decision.
+var readerTainted bool
+var nReaderSkipped int64
+
+func multiByteLength(in []byte) bool {
+	for i := 0; i < len(in) && i < 4; i++ {
+		if b := in[i]; (b >= 0xb9 && b <= 0xbf) || b >= 0xf9 {
+			return true
+		}
+	}
+	return false
+}
+
 // readers runs one (input, target) through the given reader combinations.
 func (r *runner) readers(t *target, in []byte, combos []int) {
 	for _, ci := range combos {
+		if readerTainted && allCombos[ci].limit != 0 && multiByteLength(in) {
+			nReaderSkipped++
+			continue
+		}
 		r.evals++
 		if fs := checkReader(t, in, ci); len(fs) > 0 {
+			readerTainted = true
 			in, ci := append([]byte{}, in...), ci
 			r.report(kase{Part: "reader", Type: t.name, In: packBytes(in), Combo: ci}, fs, func() []finding { return checkReader(t, in, ci) })
+		}
+	}
+}
+
+// readerSentinel: small inputs without multi-byte lengths (complete values and their
+// truncations) through every reader combination; run by every worker.
+func (r *runner) readerSentinel() {
+	ins := [][]byte{{0x81, 0x80}, {0x82, 0x61}, {0x83, 0x61, 0x62}, {0x82, 0x01, 0x00}, {0x82, 0x01}, cat([]byte{0xb8, 56}, rep(0x61, 56)),
+		cat([]byte{0xb8, 56}, rep(0x61, 10)), {0xc3, 0x82, 0x61}, {0xc2, 0x81, 0x80}, {0xc3, 0x82, 0x61, 0x62}}
+	for _, in := range ins {
+		for _, n := range []string{"[]byte", "uint64", "*big.Int", "interface{}", "RawValue", "[][]byte"} {
+			t := targetByName[n]
+			for ci := range allCombos {
+				fs := checkReader(t, in, ci)
+				r.evals++
+				if len(fs) > 0 {
+					readerTainted = true
+					if r.c.Shard == 0 {
+						in, ci := in, ci
+						r.report(kase{Part: "reader", Type: t.name, In: packBytes(in), Combo: ci}, fs, func() []finding { return checkReader(t, in, ci) })
+					}
+				}
+			}
 		}
 	}
 }
@@ -965,6 +1016,9 @@ func run(c *fw.Ctx) {
 		c.Count("rejected_decodes", nRejected)
 		c.Count("dirty_destination_decodes", nDirty)
 		c.Count("reader_dimension_decodes", nReader)
+		if nReaderSkipped > 0 {
+			c.Count("reader_cases_skipped_after_finding", nReaderSkipped)
+		}
 		keys := make([]string, 0, len(outcomeSeen))
 		for k := range outcomeSeen {
 			keys = append(keys, k)
@@ -980,6 +1034,7 @@ func run(c *fw.Ctx) {
 		rlp.EncodeToBytes(t.mk())
 	}
 	r.sentinel()
+	r.readerSentinel()
 	// CPU time per phase, summed over workers (reporting only, never an oracle)
 	t0 := cpuMs()
 	phase := func(name string) {
